@@ -29,6 +29,9 @@ def run_demo(d, include_dir, chai_bin):
             return 999, "demo does not compile: " + out[-800:]
         rc, out = sh(exe, cwd=d, timeout=300)
         return rc, out[-1500:]
+    if os.path.exists(os.path.join(d, "demo.sh")):
+        rc, out = sh("bash %s %s" % (os.path.join(d, "demo.sh"), chai_bin), timeout=600)
+        return rc, out[-1500:]
     return 998, "no demo"
 
 
